@@ -2,6 +2,7 @@
   Helper lemmas for C09 (3): `optimize` never introduces a pseudo-type kind that was not in its input.
 -/
 import J2M.Proofs.StringsKinds
+import J2M.Proofs.SplitWorklist
 namespace J2M.Strings
 
 open J2M
@@ -229,21 +230,7 @@ def splitHas (s : Split) (k : String) : Prop :=
   k ∈ Ty.kindsList s.strTypes ∨ (∃ m ∈ s.toMerge, k ∈ Ty.kindsFields m) ∨ k ∈ Ty.kindsList s.lists ∨
   k ∈ Ty.kindsList s.dicts ∨ k ∈ Ty.kindsList s.other
 
-def splitStep (reg : StrRegistry) (s : Split) (item : Ty) : Split :=
-  let (item, s) := match item with
-    | .opt x => (x, { s with other := s.other ++ [Ty.null] })
-    | x => (x, s)
-  match item with
-  | .obj fs => { s with toMerge := s.toMerge ++ [fs] }
-  | .str => { s with strTypes := s.strTypes ++ [item] }
-  | .ser k => if reg.types.contains k then { s with strTypes := s.strTypes ++ [item] }
-              else { s with other := s.other ++ [item] }
-  | .list x => { s with lists := s.lists ++ [x] }
-  | .dict x => { s with dicts := s.dicts ++ [x] }
-  | x => { s with other := s.other ++ [x] }
-
-theorem splitMembers_eq (reg : StrRegistry) (ts : List Ty) :
-    splitMembers reg ts = ts.foldl (splitStep reg) {} := rfl
+open J2M.SplitW (splitStep)
 
 theorem kindsList_snoc (xs : List Ty) (y : Ty) (k : String) :
     k ∈ Ty.kindsList (xs ++ [y]) ↔ k ∈ Ty.kindsList xs ∨ k ∈ y.kinds := by
@@ -323,12 +310,46 @@ theorem foldl_splitStep_has (reg : StrRegistry) (ts : List Ty) : ∀ (s : Split)
       · exact .inr (.inl h)
     · exact .inr (.inr h)
 
-theorem splitMembers_has (reg : StrRegistry) (ts : List Ty) (k : String)
-    (h : splitHas (splitMembers reg ts) k) : k ∈ Ty.kindsList ts := by
-  rw [splitMembers_eq] at h
+/-- the worklist's member list carries no kind that was not in the original members (splicing the members of a
+    union hidden under an `Optional` only re-arranges sub-terms; the inserted `Null` has no kinds) -/
+theorem kinds_expand : ∀ (fuel : Nat) (ts : List Ty) (k : String),
+    k ∈ Ty.kindsList (SplitW.expand fuel ts) → k ∈ Ty.kindsList ts
+  | 0, ts, k, h => by simp [Ty.kindsList] at h
+  | fuel + 1, [], k, h => by simp [Ty.kindsList] at h
+  | fuel + 1, item :: rest, k, h => by
+    have hplain : SplitW.hidden item = false → k ∈ Ty.kindsList (item :: rest) := by
+      intro hh
+      rw [SplitW.expand_succ_plain fuel rest hh] at h
+      simp only [Ty.kindsList, List.mem_append] at h ⊢
+      rcases h with h | h
+      · exact .inl h
+      · exact .inr (kinds_expand fuel rest k h)
+    cases item with
+    | union ms =>
+      rw [SplitW.expand_succ_union] at h
+      have := kinds_expand fuel (ms ++ rest) k h
+      simpa [Ty.kindsList, Ty.kinds, kindsList_append] using this
+    | opt y =>
+      cases y with
+      | union ms =>
+        rw [SplitW.expand_succ_opt_union] at h
+        simp only [Ty.kindsList, Ty.kinds, List.nil_append] at h
+        have := kinds_expand fuel (ms ++ rest) k h
+        simpa [Ty.kindsList, Ty.kinds, kindsList_append] using this
+      | _ => exact hplain rfl
+    | _ => exact hplain rfl
+
+theorem splitFold_has (reg : StrRegistry) (ts : List Ty) (k : String)
+    (h : splitHas (SplitW.splitFold reg ts) k) : k ∈ Ty.kindsList ts := by
+  rw [SplitW.splitFold_eq_foldl] at h
   rcases foldl_splitStep_has reg ts {} k h with h | h
   · simp [splitHas, Ty.kindsList] at h
   · exact h
+
+theorem splitMembers_has (reg : StrRegistry) (ts : List Ty) (k : String)
+    (h : splitHas (splitMembers reg ts) k) : k ∈ Ty.kindsList ts := by
+  rw [SplitW.splitMembers_eq] at h
+  exact kinds_expand _ ts k (splitFold_has reg _ k h)
 
 
 /-! ## optimize -/
